@@ -44,14 +44,19 @@ impl Context {
 
     pub fn stop_collecting_arguments(&mut self) {
         // current state must be argument collecting state
-        let arguments = self.do_pop().arguments.expect("Expected argument state");
+        let mut arguments = self.do_pop().arguments.expect("Expected argument state");
+        let arg_paths = arguments.take_arg_paths();
         let variables = Variables::from(arguments);
         self.do_push_new(variables, false);
+        self.state_mut().arg_paths = arg_paths;
     }
 
     pub fn stop_collecting_arguments_static(&mut self, scope_name: ScopeName) {
         // current state must be argument collecting state
-        let arguments = self.do_pop().arguments.expect("Expected argument state");
+        let mut arguments = self.do_pop().arguments.expect("Expected argument state");
+        // the paths of the by ref arguments belong to this call: the memory block
+        // is shared with the calls of the same subprogram that are still running
+        let arg_paths = arguments.take_arg_paths();
         // ensure memory block for this subprogram
         match self.static_memory_blocks.get(&scope_name) {
             Some(existing_memory_block_index) => {
@@ -68,6 +73,13 @@ impl Context {
                     .insert(scope_name, memory_block_index);
             }
         }
+        self.state_mut().arg_paths = arg_paths;
+    }
+
+    /// For by ref arguments, gets the resolved path that can be used to find
+    /// the variable that was passed at the given position in the parent context.
+    pub fn arg_path(&self, index: usize) -> Option<&Path> {
+        self.state().arg_paths.get(index).and_then(Option::as_ref)
     }
 
     pub fn pop(&mut self) {
@@ -497,6 +509,10 @@ impl Default for Context {
 struct State {
     memory_block_index: usize,
     arguments: Option<Arguments>,
+
+    /// The resolved paths of the by ref arguments this subprogram call was made with,
+    /// by position (empty for the global module and while collecting arguments).
+    arg_paths: Vec<Option<Path>>,
 }
 
 impl State {
@@ -508,6 +524,7 @@ impl State {
             } else {
                 None
             },
+            arg_paths: vec![],
         }
     }
 }
